@@ -11,7 +11,7 @@
    what unbounded channels with one stage running after the other deliver; [compose_states] the final
    state of every stage (for lifecycle detection: the final lifecycle table). *)
 From Coq Require Import List NArith Bool Arith Permutation.
-From AdltV Require Import Pipe.Kahn Pipe.KahnProofs Pipe.Loss Pipe.LossProofs Pipe.Shared Pipe.SharedProofs Pipe.Consumer Pipe.ConsumerProofs Pipe.Incr Pipe.IncrProofs.
+From AdltV Require Import Pipe.Kahn Pipe.KahnProofs Pipe.Loss Pipe.LossProofs Pipe.Shared Pipe.SharedProofs Pipe.Consumer Pipe.ConsumerProofs Pipe.Incr Pipe.IncrProofs Pipe.Plugins Pipe.PluginsProofs.
 Import ListNotations.
 
 Section Statements.
@@ -383,6 +383,79 @@ Proof.
   split; [vm_compute; discriminate|vm_compute; reflexivity].
 Qed.
 
+(* ---------------------------------------------------------------------------------------------------------------
+   The plugins stage (Pipe/Plugins.v = plugins/mod.rs plugins_process_msgs): [plugin] = process_msg as a function
+   (own state, message) -> (own state, rewritten message, verdict); [chain] = the loop over the plugins of one message
+   (`break` at the first plugin that returns false); [st_plugins ps inits] = the stage; [verdicts ps inits l] = per message
+   of l the message as it left the chain and whether it is forwarded; [kept] = the forwarded ones; [accepted] = the
+   verdicts alone; [select bs l] = the elements of l whose flag is true. *)
+Section PluginStatements.
+  Context {msg P K : Type}.
+
+  (* a pipeline that contains the plugins stage anywhere, on ANY capacity vector (0 included) under ANY schedule: what
+     reaches the stages behind it is the stage's input minus exactly the messages a plugin rejected, in order (for a key
+     no plugin touches, e.g. msg.index, literally a selection of the input), and nothing else is lost *)
+  Theorem C13_plugins_stage_forwards_exactly_unrejected (key : msg -> K) s0 input cap0
+          (pre post : list (@stage msg (list P) * nat)) (ps : list (@plugin msg P)) inits c (p' : @pipe msg (list P)) :
+    Forall (keeps_key key) ps ->
+    psteps false (init_pipe s0 input cap0 (pre ++ (st_plugins ps inits, c) :: post)) p' -> all_done p' = true ->
+    let l := compose (map fst pre) input in
+    let out := kept (verdicts ps inits l) in
+    delivered p' = compose (map fst post) out /\
+    map key out = map key (select (accepted ps inits l) l) /\
+    length (accepted ps inits l) = length l.
+  Proof.
+    intros Hk Hs Hd. cbv zeta. split; [exact (plugins_stage_in_pipeline s0 input cap0 pre post ps inits c p' Hs Hd)|].
+    split; [apply kept_is_selection; exact Hk|apply accepted_length].
+  Qed.
+
+  (* the stage's result (the plugins it returns) is the sequential one as well *)
+  Theorem C13_plugins_stage_final_plugin_states (ps : list (@plugin msg P)) inits l :
+    F (st_plugins ps inits) l = kept (verdicts ps inits l) /\
+    fst (run (st_plugins ps inits) (init (st_plugins ps inits)) l) = plugin_states ps inits l.
+  Proof. split; [apply plugins_F|apply plugins_final_states]. Qed.
+
+  (* `break`: when the plugins in front of p have all accepted the message and p rejects it, the plugins behind p keep
+     their state (they do not see the message), the ones in front have processed it, and the message is not forwarded *)
+  Theorem C13_plugins_behind_a_rejecting_one_do_not_see_the_message (ps1 ps2 : list (@plugin msg P)) p ss1 ss1' s ss2 m m1 :
+    length ps1 = length ss1 -> chain ps1 ss1 m = (ss1', m1, true) -> snd (p s m1) = false ->
+    chain (ps1 ++ p :: ps2) (ss1 ++ s :: ss2) m = (ss1' ++ fst (fst (p s m1)) :: ss2, snd (fst (p s m1)), false).
+  Proof. exact (chain_reject_rest_untouched ps1 ps2 p ss1 ss1' s ss2 m m1). Qed.
+
+  (* refuted variant (the behaviour class of seeded change C13-7): the verdict flag declared in front of the outer loop.
+     For every capacity and every schedule the stage delivers the input only up to the first rejected message: every
+     message behind it is lost, silently (all threads return) *)
+  Theorem C13_sticky_verdict_stage_loses_the_rest s0 input cap0 (ps : list (@plugin msg P)) inits c (p' : @pipe msg (bool * list P)) :
+    psteps false (init_pipe s0 input cap0 [(st_plugins_sticky ps inits, c)]) p' -> all_done p' = true ->
+    delivered p' = map fst (take_while snd (verdicts ps inits input)).
+  Proof. exact (sticky_stage_in_pipeline s0 input cap0 ps inits c p'). Qed.
+End PluginStatements.
+
+(* non-vacuity: three scripted plugins (the first rejects messages 3 and 4, the second 4 and 7, the third nothing) on the
+   input 0..9 behind a rendezvous channel, in front of a channel of capacity 1: a complete execution exists, it delivers
+   0 1 2 5 6 8 9, the plugins have seen 10, 8 and 7 messages; the sticky variant delivers 0 1 2 *)
+Example C13_plugins_nonvacuous :
+  let inp := [0; 1; 2; 3; 4; 5; 6; 7; 8; 9]%N in
+  let rejs := [[3; 4]; [4; 7]; []]%N in
+  Forall (keeps_key (fun m : N => m)) (map rej_plugin rejs) /\
+  (exists p', psteps false (init_pipe [] inp 0 [(rej_chain rejs, 1%nat)]) p' /\ all_done p' = true /\
+              delivered p' = [0; 1; 2; 5; 6; 8; 9]%N /\ final_states p' = [[]; [10; 8; 7]%N]) /\
+  select (accepted (map rej_plugin rejs) [0; 0; 0]%N inp) inp = [0; 1; 2; 5; 6; 8; 9]%N /\
+  (exists p', psteps false (init_pipe (true, []) inp 0 [(rej_chain_sticky rejs, 1%nat)]) p' /\ all_done p' = true /\
+              delivered p' = [0; 1; 2]%N).
+Proof.
+  cbv zeta. split; [repeat constructor|]. split.
+  - destruct (pipeline_reaches_done (init_pipe [] [0; 1; 2; 3; 4; 5; 6; 7; 8; 9]%N 0 [(rej_chain [[3; 4]; [4; 7]; []]%N, 1%nat)]))
+      as [p' [Hs Hd]].
+    exists p'. split; [exact Hs|]. split; [exact Hd|].
+    destruct (pipeline_deterministic _ _ _ _ _ Hs Hd) as [H1 [H2 _]]. rewrite H1, H2. split; vm_compute; reflexivity.
+  - split; [vm_compute; reflexivity|].
+    destruct (pipeline_reaches_done (init_pipe (true, []) [0; 1; 2; 3; 4; 5; 6; 7; 8; 9]%N 0 [(rej_chain_sticky [[3; 4]; [4; 7]; []]%N, 1%nat)]))
+      as [p' [Hs Hd]].
+    exists p'. split; [exact Hs|]. split; [exact Hd|].
+    destruct (pipeline_deterministic _ _ _ _ _ Hs Hd) as [H1 _]. rewrite H1. vm_compute. reflexivity.
+Qed.
+
 (* instances: the miniature sort is a permutation stage, the filter and the pass-through are congruent *)
 Lemma C13_inst_sort w : perm_stage (st_sort w).
 Proof. exact (st_sort_perm_stage w). Qed.
@@ -469,3 +542,8 @@ Print Assumptions C13_removed_lifecycle_follower_refuted.
 Print Assumptions C13_incr_fresh_decided.
 Print Assumptions C13_incr_exec_sound.
 Print Assumptions C13_incr_nonvacuous.
+Print Assumptions C13_plugins_stage_forwards_exactly_unrejected.
+Print Assumptions C13_plugins_stage_final_plugin_states.
+Print Assumptions C13_plugins_behind_a_rejecting_one_do_not_see_the_message.
+Print Assumptions C13_sticky_verdict_stage_loses_the_rest.
+Print Assumptions C13_plugins_nonvacuous.
